@@ -44,7 +44,7 @@ def qkeras_types(tier, rng):
       for kn in (0, 1):
         if kn == 1 and b == 1 and tier == "quick" and i not in (0, 1):
           continue
-        out.append(("quantized_bits(%d,%d,%d)" % (b, i, kn), Q.quantized_bits(b, i, kn)))
+        out.append(("quantized_bits(%d,%d,keep_negative=%d)" % (b, i, kn), Q.quantized_bits(b, i, keep_negative=kn)))
   for b in bits_list[: 8 if tier == "quick" else 12]:
     for i in sorted(set([0, 1, b - 1, b])):
       for ns in (0.0, 0.25):
